@@ -371,7 +371,10 @@ Inductive trace :=
   (* streams (b), (c): mutated shipped sources, byte strings - observed only *)
   | TText (obs : text_obs)
   (* a text built to be well-formed (a control of a crafted shape): it must compile and build *)
-  | TTextOk (obs : text_obs).
+  | TTextOk (obs : text_obs)
+  (* a text built to be refused for a stated reason (a guard the parser has): `as_expected` = the compiler's
+     error names that reason *)
+  | TTextErr (obs : text_obs) (as_expected : bool).
 
 Definition obs_total (o : text_obs) : bool :=
   negb (to_panicked o) && negb (to_hung o) && (negb (to_accepted o) || to_built o)
@@ -399,7 +402,7 @@ Definition agrees (t : trace) : bool :=
        | _, _ => false
        end)
   | TBuilder d accepted => Bool.eqb (builder_valid d) accepted
-  | TText _ | TTextOk _ => true
+  | TText _ | TTextOk _ | TTextErr _ _ => true
   end.
 
 (* the property on the observed behaviour: no panic, no hang, an accepted program builds, errors are
@@ -410,4 +413,5 @@ Definition satisfies (t : trace) : bool :=
   | TBuilder _ _ => true
   | TText obs => obs_total obs
   | TTextOk obs => obs_total obs && to_built obs
+  | TTextErr obs as_expected => obs_total obs && negb (to_accepted obs) && as_expected
   end.
